@@ -37,10 +37,68 @@ def is_lib_global(m, gname, g, include_prefix):
     return bool(re.search(r'\b(?:ST|_ST_PRIVATE)::', dem))
 
 
+def guard_of(m, gname):
+    """Name of the compiler's guard variable of a function-local static (Itanium ABI: _ZGV + the object's mangled name), if present."""
+    g = '_ZGV' + gname[2:] if gname.startswith('_Z') else None
+    return g if g in m.globals else None
+
+
+def init_region(m, F, f, guard):
+    """Blocks of f that run between __cxa_guard_acquire(guard) returning non-zero and __cxa_guard_release / __cxa_guard_abort(guard):
+    reachable from the acquiring block and able to reach a releasing one.  None when f does not acquire the guard."""
+    acq, rel = set(), set()
+    for (i, ts, kind) in F.calls.get(f.name, ()):
+        for t in ts:
+            if t in ('__cxa_guard_acquire', '__cxa_guard_release', '__cxa_guard_abort') and guard in repr(i.a):
+                (acq if t == '__cxa_guard_acquire' else rel).add(i.block)
+    if not acq or not rel:
+        return None
+    succ = dict((b.id, list(b.succs())) for b in f.blocks)
+    fwd, work = set(), [x for a in acq for x in succ.get(a, [])]
+    while work:
+        b = work.pop()
+        if b in fwd or b in acq:
+            continue
+        fwd.add(b)
+        if b not in rel:
+            work.extend(succ.get(b, []))
+    pred = f.preds()
+    back, work = set(), list(rel)
+    while work:
+        b = work.pop()
+        if b in back:
+            continue
+        back.add(b)
+        if b not in acq:
+            work.extend(pred.get(b, []))
+    return fwd & back
+
+
+def once_initialised(m, F, E, gname):
+    """True when every write to the function-local static `gname` anywhere in the library lies inside its own guarded
+    initialisation (C++11 [stmt.dcl]/4: run once, concurrent callers wait, the releasing store of the guard orders later readers);
+    False when some write lies outside; None when the object has no guard."""
+    guard = guard_of(m, gname)
+    if guard is None:
+        return None
+    for name in F.lib:
+        if ('G', gname) not in E.sum[name]['stores']:
+            continue
+        f = m.func(name)
+        region = init_region(m, F, f, guard)
+        if region is None:
+            return False
+        for (i, kind, g) in E.global_store_sites(name):
+            if g == gname and i.block not in region:
+                return False
+    return True
+
+
 def globals_rule(run, m, F, E, tag=''):
     n = 0
     viol = 0
     inc = m.repo_include
+    once = {}
     for gname, g in sorted(m.globals.items()):
         if g.get('decl'):
             continue
@@ -57,6 +115,14 @@ def globals_rule(run, m, F, E, tag=''):
         elif g.get('tls'):
             ok = True
             detail = 'thread_local (per-thread, not shared)'
+        elif once_initialised(m, F, E, gname):
+            ok = True
+            once[gname] = True
+            detail = 'function-local static written only inside its guarded initialisation (thread-safe by [stmt.dcl]/4), read-only afterwards'
+        elif gname.startswith('_ZGV') and ('_Z' + gname[4:]) in m.globals and once_initialised(m, F, E, '_Z' + gname[4:]):
+            ok = True
+            once[gname] = True
+            detail = 'guard variable of a once-initialised function-local static (touched by the __cxa_guard_* protocol only)'
         else:
             ok = False
             detail = ('library global "%s" is a mutable object with static storage duration '
@@ -71,7 +137,7 @@ def globals_rule(run, m, F, E, tag=''):
         s = [x for x in E.sum[name]['stores'] if x[0] == 'G']
         # per-thread objects cannot be shared: a thread_local (and its guard) is written by its own thread only; registering its
         # destructor hands __cxa_thread_atexit the destructor's address and __dso_handle, which are not data
-        s = [x for x in s if not (m.globals.get(x[1], {}).get('tls') or x[1] == '__dso_handle' or
+        s = [x for x in s if not (m.globals.get(x[1], {}).get('tls') or x[1] == '__dso_handle' or once.get(x[1]) or
                                   (x[1] not in m.globals and '(' in m.dem(x[1])))]
         nf += 1
         if s:
@@ -128,6 +194,8 @@ def externals_rule(run, m, F, tag=''):
         f = m.func(name)
         for i in f.all_insts():
             if i.op in ('atomicrmw', 'cmpxchg', 'fence') or i.d.get('atomic'):
+                if i.op == 'load' and '_ZGV' in repr(i.a):
+                    continue            # the acquire load of a function-local static's guard variable (compiler-generated)
                 atom.append((f, i))
     viol = 0
     for t in sorted(ext):
